@@ -34,11 +34,17 @@ def _setup(env, m=None, conv=None, rename=None, only=None):
         t2 = ren(t)
         if only is not None and not (_symnames(t2) <= only):
             continue
+        lim = m.limit
+        m.limit = len(m.node) + 50000
         try:
             e = conv(t2).eq(v)
+            K2 = m.AND(K, e if kind == 'eq' else m.NOT(e))
         except Unsupported:
+            conv.memo.pop(t2, None)
             continue
-        K = m.AND(K, e if kind == 'eq' else m.NOT(e))
+        finally:
+            m.limit = lim
+        K = K2
     for t, av in env.ref.items():
         if only is not None and not (_symnames(ren(t)) <= only):
             continue
